@@ -60,6 +60,12 @@ def gen_cases(tier, seed):
                 keys.append(dict(part="bulk", frac=fi, nmin=nm, flows=flp))
                 keys.append(dict(part="interleave", frac=fi, nmin=nm, flows=flp, alias=0))
                 keys.append(dict(part="interleave", frac=fi, nmin=nm, flows=flp, alias=1))
+    # one params dictionary object shared by all updates and modified in place between them
+    # (fraction pair, mobility) versus a fresh dictionary per update: hidden state keyed on
+    # the identity of the dictionary would show (seed C08c)
+    for fi in range(len(FRACS)):
+        for nm in (2, 3):
+            keys.append(dict(part="params_inplace", frac=fi, nmin=nm, flows=fi % 4))
     return keys
 
 
@@ -72,7 +78,55 @@ def assemblage(key, ph):
 
 
 def run_case(key):
-    return {"single": run_twin, "perm": run_twin, "bulk": run_bulk, "interleave": run_interleave}[key["part"]](key)
+    return {"single": run_twin, "perm": run_twin, "bulk": run_bulk, "interleave": run_interleave, "params_inplace": run_params_inplace}[key["part"]](key)
+
+
+def run_params_inplace(key):
+    """Every schedule of 2 updates per mineral, where the k-th update of any mineral uses
+    fraction pair k and mobility k: once with a fresh params dict per update, once with ONE
+    dict object modified in place.  Results must be bit-identical."""
+    res = empty_result()
+    pd = H.pd()
+    nm = key["nmin"]
+    fls = [H.flow(x) for x in FLOW_PAIRS[key["flows"]]]
+    pairs = [FRACS[key["frac"]], FRACS[(key["frac"] + 2) % len(FRACS)]]
+    mobs = [125.0, 40.0]
+
+    def fresh(k):
+        p = H.params_for(0, "default", assemblage=[pd.MineralPhase.olivine, pd.MineralPhase.enstatite], fractions=pairs[k])
+        p["gbm_mobility"] = mobs[k]
+        return p
+
+    scheds = interleavings([2] * nm)
+    for sched in scheds:
+        outs = []
+        for mode in ("fresh", "inplace"):
+            ms = make_minerals(key)
+            Fs = [H.f0("generic") for _ in range(nm)]
+            done = [0] * nm
+            shared = fresh(0)
+            for i in sched:
+                k = done[i]
+                if mode == "fresh":
+                    prm = fresh(k)
+                else:
+                    shared["phase_fractions"] = tuple(pairs[k])
+                    shared["gbm_mobility"] = mobs[k]
+                    prm = shared
+                res["n"] += 1
+                res["trans"] += 1
+                Fs[i] = H.update(ms[i], prm, Fs[i], fls[k], 0.3 * k, 0.3 * k + 0.3)
+                done[i] += 1
+            outs.append([digest(np.array(m.orientations), np.array(m.fractions), F) for m, F in zip(ms, Fs)])
+        res["states"] += 1
+        res["clauses"]["params_dict_identity_irrelevant"] = res["clauses"].get("params_dict_identity_irrelevant", 0) + 1
+        if outs[0] != outs[1]:
+            H.V(res, key, "params_dict_identity_irrelevant", {"minerals_differing": [i for i in range(nm) if outs[0][i] != outs[1][i]]}, sched="".join(map(str, sched)))
+        res["nontrivial"].append(digest(key, sched))
+        res["outcomes"] += outs[0]
+    res["obs"] = digest(*res["outcomes"])
+    res["sample"] = {"case": key, "schedules": len(scheds)}
+    return res
 
 
 def run_twin(key):
